@@ -584,3 +584,17 @@ def case_literal_rank():
 
 
 CASES["literal_rank"] = case_literal_rank
+
+
+def case_scatter_permuted():
+    bad = 0
+    for rows in ([[3], [2], [1], [0]], [[1], [2], [3], [0]], [[0], [0], [1], [2]]):
+        idx = numpy_helper.from_array(np.array(rows, dtype=np.int64), "idx")
+        g = helper.make_graph([helper.make_node("ScatterND", ["d", "idx", "u"], ["y"])], "g",
+                              [vi("d", TensorProto.FLOAT, [4, 3]), vi("u", TensorProto.FLOAT, [4, 3])], [vi("y", TensorProto.FLOAT, [4, 3])], [idx])
+        m = helper.make_model(g, opset_imports=[helper.make_opsetid("", 18)], ir_version=9)
+        bad += check(m, [{"d": np.zeros((4, 3), np.float32), "u": np.arange(12, dtype=np.float32).reshape(4, 3)}], f"ScatterND(data[4,3], {rows}, updates[4,3])")
+    return bad
+
+
+CASES["scatter_permuted"] = case_scatter_permuted
